@@ -111,6 +111,24 @@ def pack_range(length, start, count, outs):
 TOKENS = ["/", "/", "//", "///", "////", ".", "..", "...", "a", "b", "etc", "passwd", "..a", "a..", ".b", " ",
           "é", "\\", "~", "-", "a b", "✓", "..", "../..", "/../", "/./", "./", "../"]
 
+# characters that Unicode compatibility / canonical normalisation (NFKC, NFKD, NFC, NFD) or case folding turn into
+# '.', '..', '/' or that decompose / compose: they are ordinary name characters for canonicalize
+LOOKALIKES = ["\u2024", "\u2025", "\u2026", "\uff0e", "\ufe52", "\uff0f", "\u2215", "\u2044", "\uff0e\uff0e",
+              "\u2024\u2024", "\u2025", "e\u0301", "\u00e9", "\uff41", "\u212b", "\u00a0", "\u3002", "\uff61",
+              "\ufe30", "\u0338", "\u200b", "\ufeff", "\ud7a3", "\U0001f600", "\u0130", "\u00df"]
+UALPHA = ["/", "\u2025", "\u2024", "\uff0e", "a"]
+
+
+def gen_unicode(rng):
+    mode = rng.randrange(3)
+    if mode == 0:      # look-alike components against a few names, as a traversal attempt would be written
+        n = rng.randrange(1, 9)
+        return rng.choice(["", "/", "//", "/pub/"]) + rng.choice(["/", "//", "\uff0f"]).join(
+            rng.choice(LOOKALIKES + ["a", "etc", "..", "."]) for _ in range(n))
+    if mode == 1:
+        return "".join(rng.choice(LOOKALIKES + TOKENS) for _ in range(rng.randrange(1, 14)))
+    return "".join(rng.choice(LOOKALIKES + ["/", "/", ".", "a"]) for _ in range(rng.randrange(1, 20)))
+
 
 def gen_long(rng):
     mode = rng.randrange(4)
@@ -149,7 +167,9 @@ def run(ctx):
     model_len = 8 if ctx.thorough else 6
     ctx.rule = ("every string over {'/', '.', 'a', 'b'} up to length %d through the implementation-level oracle and "
                 "up to length %d through the model (thorough: 10 / 8), a seeded sample of the longer ones through the "
-                "model, and seeded random long paths ('..' runs, repeated separators, dotted names, non-ASCII); "
+                "model, seeded random long paths ('..' runs, repeated separators, dotted names, non-ASCII), every string up "
+                "to length 5 (thorough 6) over {'/', U+2025, U+2024, U+FF0E, 'a'} and seeded paths built from Unicode "
+                "look-alikes of '.', '..', '/' and composed / decomposed names; "
                 "non-trivial = distinct non-empty path" % (oracle_len, model_len))
     ctx.trusted += ["model coq/Model/C34.v is hand-written; canonicalize is tied to paramiko/sftp_si.py and the "
                     "normpath model to the running interpreter's posixpath.normpath by this differential run "
@@ -214,6 +234,29 @@ def run(ctx):
     for i in bad[:3]:
         ctx.disagree("canonicalize differs from model", case={"path": cases[i][0]}, impl=cases[i][1])
     ctx.sample({"canonicalize": {"path": cases[0][0], "impl": cases[0][1]}})
+
+    # ---- 3b. non-ASCII paths: dot / slash look-alikes, composed / decomposed names are ordinary characters ----
+    cases = []
+    ulen = 6 if ctx.thorough else 5
+    for n in range(1, ulen + 1):
+        for t in itertools.product(UALPHA, repeat=n):
+            su = "".join(t)
+            o = check_one(ctx, su)
+            if o is not None and (n <= 2 or rng.random() < 0.02):
+                cases.append((su, o))
+        ctx.evaluations += 5 ** n
+        ctx.dist["exhaustive-unicode-len%d" % n] = 5 ** n
+    for _ in range(2000 if ctx.thorough else 400):
+        su = gen_unicode(rng)
+        o = check_one(ctx, su)
+        ctx.count(("unicode", su), nontrivial=len(su) > 0, kind="random-unicode")
+        if o is not None and rng.random() < 0.3:
+            cases.append((su, o))
+    bad = mm(ctx, "run_canon", "(list Z)", [(coq(cps(su)), cps(o)) for su, o in cases])
+    for i in bad[:3]:
+        ctx.disagree("canonicalize differs from model on a non-ASCII path", case={"path": cases[i][0]},
+                     impl=cases[i][1])
+    ctx.sample({"canonicalize": {"path": "/pub/\u2025/\u2025/etc", "impl": canon("/pub/\u2025/\u2025/etc")}})
 
     # ---- 4. the library model itself: posixpath.normpath incl. relative paths ----------------------------
     cases = []
